@@ -64,4 +64,41 @@ __CPROVER_ensures(name == NULL ==> __CPROVER_return_value == 0)
 __CPROVER_ensures(name != NULL ==> SPEC_VALID_NAME(name, g_len, for_item, g_cp_count, __CPROVER_return_value))
 ;
 
+
+/* ---- normalisation buffers (C09 / C16 / C17) -------------------------------------------------------------------- */
+#define OLD(x) __CPROVER_old(x)
+#define RET __CPROVER_return_value
+int32_t g_norm_len;      /* ghost: length of the normalised form as ICU computes it (arbitrary) */
+int g_norm_fail;         /* ghost: ICU reports a failure other than overflow */
+
+int32_t u_strlen(const UChar *s)
+__CPROVER_requires(__CPROVER_r_ok(s, MAXN * sizeof(UChar)) && USTR_Q(s, g_len))
+__CPROVER_assigns()
+__CPROVER_ensures(RET == (int32_t)g_len)
+;
+
+/* assumed ICU contract (preflighting protocol of every ICU string function): returns the full result length; writes at most
+ * destCapacity units; status = BUFFER_OVERFLOW if it does not fit, STRING_NOT_TERMINATED if only the NUL does not fit */
+int32_t unorm_normalize(const UChar *source, int32_t sourceLength, UNormalizationMode mode, int32_t options, UChar *result, int32_t resultLength, UErrorCode *status)
+__CPROVER_requires(sourceLength >= 0 && resultLength >= 0 && __CPROVER_rw_ok(status, sizeof(*status)) && *status == U_ZERO_ERROR)
+__CPROVER_requires(resultLength == 0 || __CPROVER_w_ok(result, (size_t)resultLength * sizeof(UChar)))
+__CPROVER_requires(g_norm_len >= 0 && g_norm_len < MAXN - 1)
+__CPROVER_assigns(*status, __CPROVER_object_upto(result, (size_t)resultLength * sizeof(UChar)))
+__CPROVER_ensures(g_norm_fail ? (*status > U_ZERO_ERROR && *status != U_BUFFER_OVERFLOW_ERROR) :
+        (RET == g_norm_len && *status == (g_norm_len > resultLength ? U_BUFFER_OVERFLOW_ERROR : (g_norm_len == resultLength ? U_STRING_NOT_TERMINATED_WARNING : U_ZERO_ERROR))))
+__CPROVER_ensures((!g_norm_fail && g_norm_len < resultLength) ==> result[g_norm_len] == 0)
+;
+
+static int cif_unicode_normalize(const UChar *src, int32_t srclen, UNormalizationMode mode, UChar **result, int32_t *result_length, int terminate)
+__CPROVER_requires(__CPROVER_r_ok(src, MAXN * sizeof(UChar)) && USTR_Q(src, g_len) && (srclen < 0 || (size_t)srclen <= g_len))
+__CPROVER_requires(__CPROVER_rw_ok(result, sizeof(*result)) && __CPROVER_rw_ok(result_length, sizeof(*result_length)))
+__CPROVER_requires(g_norm_len >= 0 && g_norm_len < MAXN - 1)
+__CPROVER_assigns(*result, *result_length)
+__CPROVER_ensures(RET == CIF_OK || RET == CIF_MEMORY_ERROR || RET == CIF_ERROR)
+/* success: a buffer holding the g_norm_len normalised units, NUL-terminated when asked for, handed to the caller */
+__CPROVER_ensures(RET == CIF_OK ==> (*result_length == g_norm_len && __CPROVER_rw_ok(*result, ((size_t)g_norm_len + (terminate ? 1 : 0)) * sizeof(UChar))))
+__CPROVER_ensures((RET == CIF_OK && terminate) ==> (*result)[g_norm_len] == 0)
+/* failure: outputs untouched (and, checked by --memory-leak-check in the harness, nothing left allocated) */
+__CPROVER_ensures(RET != CIF_OK ==> (*result == OLD(*result) && *result_length == OLD(*result_length)))
+;
 #endif
